@@ -138,6 +138,7 @@ PLANS["C08"] = {
     "assumptions": L1_ASSUME,
     "stages": [
         T("sort", "sort", (60, 1500), ["InvC08"]),
+        T("ties", "ties", (16, 400), ["InvC08"], chunk=6),
         T("extremes", "extremes", (15, 300), ["InvC08"]),
         T("floats", "floats", (15, 300), ["InvC08"]),
         EDG("edges", ["InvC08"], ops=["Derived"]),
@@ -149,6 +150,7 @@ PLANS["C09"] = {
     "assumptions": L1_ASSUME,
     "stages": [
         T("derived", "derived", (60, 1500), ["InvC09"]),
+        T("ties", "ties", (24, 500), ["InvC09"], chunk=6),
         EDG("edges", ["InvC09"], ops=["Derived", "ListIndexes", "ListCollections"]),
     ],
 }
@@ -184,6 +186,15 @@ PLANS["C20"] = {
     "stages": [
         T("general", "general", (60, 1500), ["InvNoPanic"], backends="bolt,badgermem"),
         T("audit", "audit", (30, 600), ["InvNoPanic"]),
+        T("closed", "closed", (20, 400), ["InvNoPanic"], backends="bolt,badger"),
+        T("rich", "rich", (20, 400), ["InvNoPanic"]),
+        T("extremes", "extremes", (10, 200), ["InvNoPanic"]),
+        EDG("edges", ["InvNoPanic"], states=(20, 0), reads=(30, 300), writes=(10, 100)),
+        # the public query / index / document APIs called directly
+        AUX("satisfy", "satisfy", (250, 5000), invariants=["InvAuxNoPanic"]),
+        AUX("scan", "scan", (30, 600), invariants=["InvAuxNoPanic"]),
+        AUX("norm", "norm", (800, 20000), invariants=["InvAuxNoPanic"]),
+        AUX("cursor", "cursor", (30, 600), invariants=["InvAuxNoPanic"]),
     ],
 }
 
